@@ -163,7 +163,7 @@ fn def(prop: &str, tier: u8) -> Option<Def> {
         "C06" => Def {
             memcheck: mc,
             parts: vec![("sync", fam_sync::total(prop, tier)), ("arc", arcs::total(prop, tier))],
-            clauses: vec!["missed_failure", "missed_deadlock", "missed_race", "missed_leak", "wrong_failure", "false_failure", "false_deadlock", "false_race", "false_leak", "loom_internal_panic", "process_died", "dirty_after_failure", "unexpected_branch_limit"],
+            clauses: vec!["missed_failure", "missed_deadlock", "missed_race", "missed_leak", "wrong_failure", "false_failure", "false_deadlock", "false_race", "false_leak", "loom_internal_panic", "process_died", "dirty_after_failure", "unexpected_branch_limit", "panic_state_leaked"],
             rule: "programs over all blocking primitives, SeqCst atomics and cells with injected user assertions (unconditional, or conditioned on the preceding try_lock/try_read/try_write/try_recv result so that the failing iteration is not the first): raised in any thread, while holding mutex / rwlock guards, while other threads are blocked in lock/recv/wait/park/join, before a spawned thread ever ran, with the objects behind std or loom::sync::Arc; pinned shapes of the property text. The reference machine decides which failures are reachable; loom::model must unwind with one of them (and return normally when none is), the worker process must survive, and a probe model run afterwards in the same process must behave exactly as in a fresh process. non-trivial = >= 2 threads with operations and >= 2 reference terminals or loom iterations",
             trusted: vec!["harness/src/sync.rs reference machine", "panic classifier (common.rs)", "interpreters"],
             assumptions: vec!["when several failure kinds are reachable any of them is accepted (loom stops at the first failing iteration)"],
@@ -217,7 +217,7 @@ fn def(prop: &str, tier: u8) -> Option<Def> {
         "C16" => Def {
             memcheck: mc,
             parts: vec![("iso", fam_iso::total(tier))],
-            clauses: vec!["differs_after_failed_models", "differs_under_concurrent_models", "iteration_state_leaks", "unexpected_panic"],
+            clauses: vec!["differs_after_failed_models", "differs_under_concurrent_models", "iteration_state_leaks", "unexpected_panic", "panic_state_leaked"],
             rule: "each job takes a random litmus program and a random blocking program plus an identity model (ThreadIds of main and two children, an atomic and a channel that must start at their initial state in every iteration); their complete records (per-iteration outcome sequence, execution orders, decision paths, iteration counts, identity lines) are computed in a fresh process, again in the worker process after 2-6 models that failed (lock-order deadlock incl. loom::sync::Arc-shared, data race, Arc + allocation leak, branch limit inside a spin loop, user panic while others are blocked, panic in a payload destructor, leaked messages) and after all earlier jobs of the shard, and again while 3-6 (thorough 3-15) other OS threads run other models with injected yields/sleeps; all three must be identical. non-trivial = one of the two programs runs >= 2 iterations",
             trusted: vec!["record digests (FNV over Debug output)", "iteration hook", "interpreters"],
             assumptions: vec!["the TSan and memcheck lanes of the thorough tier are separate commands (see DESIGN §5-C16)"],
@@ -226,7 +226,7 @@ fn def(prop: &str, tier: u8) -> Option<Def> {
         "C13" => Def {
             memcheck: mc,
             parts: vec![("path", fam_path::total(prop, tier))],
-            clauses: vec!["nondeterministic", "checkpoint_resume", "checkpoint_failure_replay", "unexpected_panic"],
+            clauses: vec!["nondeterministic", "checkpoint_resume", "checkpoint_failure_replay", "unexpected_panic", "panic_state_leaked"],
             rule: "programs with 3..=120 (thorough 400) iterations; per program: two runs in one process and two fresh processes compared (outcomes, execution orders, decision paths); every stop point k in 1..N x intervals 1,2,3,7 and a random one through a real checkpoint file; process aborts at the start / in the middle of iteration k resumed in a fresh process; three failing iterations (first, middle, last) reloaded from their checkpoint; non-trivial = program in the iteration range",
             trusted: path_trusted,
             assumptions: vec!["a crash while loom writes the checkpoint file is not injected"],
